@@ -256,6 +256,10 @@ class HandOver(NativeCase):
         deep = ["DUP9 PUSH 1 ADD PUSH 0 LOG0 ADD", "DUP12 DUP12 PUSH 0 LOG1 ADD", "SWAP10 PUSH 0 PUSH 0 LOG0 SWAP10 ADD",
                 "DUP11 DUP11 PUSH 0 MSTORE ADD", "PUSH 1 DUP13 PUSH 0 PUSH 0 LOG2 POP"]
         blocks += [corpus.tokens(b) for b in deep]
+        # tiny blocks: pops around a single instruction (the "optimizable" test of the front end has a branch of its own for them)
+        tiny = ["POP PUSH 0 POP POP", "POP POP ADD POP POP", "POP CALLER POP", "POP DUP1 POP POP", "PUSH 0", "POP", "ADD", "POP POP",
+                "CALLER", "POP PUSH 1", "DUP1", "POP ADD", "SWAP1 POP"]
+        blocks += [corpus.tokens(b) for b in tiny]
         n = 0
         for toks in blocks:
             depth = well_formed(toks)
